@@ -37,6 +37,14 @@ def items(tier):
     for sp in F.auto_component_specs():
         for aa in (False, True):
             out.append((sp, {"rule": "TSLACK", "auto_abs": aa, "max_time": F.seq_bound(sp) + 12}))
+    sc = F.shared_child_spec()
+    for extra in ({}, {"backward": True, "rev": True}, {"backward": True, "rev": False}, {"post_insert": [2, 1]}, {"post_insert": [3, 1, 2]}, {"reload": True}):
+        out.append((sc, dict({"rule": "TSLACK", "max_time": 20}, **extra)))
+    # the component/task log relation after absence steps were inserted afterwards (in any order) and after a backward run
+    for sp, o in list(out)[:: (11 if tier == "quick" else 3)]:
+        for lst in ([1], [2, 1], [4, 2], [3, 1, 2]):
+            out.append((sp, dict(o, post_insert=lst)))
+        out.append((sp, dict(o, backward=True, rev=True)))
     # the same invariants on a run that follows an earlier run on the same project object
     for sp, o in list(out)[:: (7 if tier == "quick" else 2)]:
         out.append((sp, dict(o, presim=1)))
